@@ -383,21 +383,22 @@ Section Model.
 
   (** every link shortens the ring by one (outer fuel); between two links [curr] advances at
       most once around the ring (inner fuel, refilled with [m] after a link). *)
+  Fixpoint c_inner (k : cstate -> res cstate) (fuel2 : nat) (s : cstate) : res cstate :=
+    match fuel2 with
+    | O => Hang
+    | S f2 =>
+        match cstep s with
+        | CLinked s' => k s'
+        | CAdvanced s' => c_inner k f2 s'
+        | CFinished s' => Ok s'
+        | CFailed => Panic
+        end
+    end.
+
   Fixpoint c_loop (m fuel1 : nat) (s : cstate) : res cstate :=
     match fuel1 with
     | O => Hang
-    | S f1 =>
-        (fix inner (fuel2 : nat) (s : cstate) : res cstate :=
-           match fuel2 with
-           | O => Hang
-           | S f2 =>
-               match cstep s with
-               | CLinked s' => c_loop m f1 s'
-               | CAdvanced s' => inner f2 s'
-               | CFinished s' => Ok s'
-               | CFailed => Panic
-               end
-           end) m s
+    | S f1 => c_inner (c_loop m f1) m s
     end.
 
   (** [for _, r := range roots { if r != nil { h.ext = pickExt(h.ext, r) } }] *)
